@@ -48,6 +48,123 @@ pub fn iretq_case(r: &mut Rep, rip: u64, cs: u16, fl: u64, rsp: u64, ss: u16) {
     }
 }
 
+// ------------------------------------------------------------------ handler entry with arbitrary frame contents (emulated iretq)
+
+#[derive(Clone, Copy, Default)]
+#[repr(C)]
+struct Seen {
+    calls: u64,
+    index: u64,
+    has_err: u64,
+    err: u64,
+    frame: [u64; 5],
+}
+static mut SEEN: Seen = Seen { calls: 0, index: 0, has_err: 0, err: 0, frame: [0; 5] };
+
+fn gh(f: x86_64::structures::idt::InterruptStackFrame, i: u8, e: Option<u64>) {
+    let (has, val) = match e { Some(v) => (1u64, v), None => (0, 0) };
+    let fp = &f as *const _ as u64;
+    unsafe {
+        core::arch::asm!("mov r12, rsp", "and rsp, -16", "call {inner}", "mov rsp, r12", inner = sym gh_inner,
+            in("rdi") fp, in("rsi") i as u64, in("rdx") has, in("rcx") val, out("r12") _, clobber_abi("C"));
+    }
+}
+extern "C" fn gh_inner(fp: *const x86_64::structures::idt::InterruptStackFrame, i: u64, has: u64, val: u64) {
+    unsafe {
+        let f = &*fp;
+        SEEN.calls += 1;
+        SEEN.index = i;
+        SEEN.has_err = has;
+        SEEN.err = val;
+        SEEN.frame = [f.instruction_pointer.as_u64(), f.code_segment.0 as u64, f.cpu_flags.bits(), f.stack_pointer.as_u64(), f.stack_segment.0 as u64];
+    }
+}
+
+/// enter `handler` with an arbitrary hardware-format frame; the stub's final iretq is emulated and execution continues here
+unsafe fn enter_with_frame(handler: u64, frame: &[u64; 5], err: Option<u64>) {
+    let (has, ev) = (err.is_some() as u64, err.unwrap_or(0));
+    core::arch::asm!(
+        "push rbx",
+        "push rbp",
+        "lea rax, [rip + 3f]",
+        "mov [{cont}], rax",
+        "mov [{rsps}], rsp",
+        "and rsp, -16",
+        "push qword ptr [{fr} + 32]",   // SS
+        "push qword ptr [{fr} + 24]",   // RSP
+        "push qword ptr [{fr} + 16]",   // RFLAGS
+        "push qword ptr [{fr} + 8]",    // CS
+        "push qword ptr [{fr}]",        // RIP
+        "test {has}, {has}",
+        "jz 2f",
+        "push {ev}",
+        "2:",
+        "jmp {h}",
+        "3:",
+        "pop rbp",
+        "pop rbx",
+        cont = in(reg) core::ptr::addr_of_mut!(CPU.iret_cont),
+        rsps = in(reg) core::ptr::addr_of_mut!(CPU.iret_rsp),
+        fr = in(reg) frame.as_ptr(),
+        has = in(reg) has,
+        ev = in(reg) ev,
+        h = in(reg) handler,
+        out("rax") _, out("r12") _, out("r13") _, out("r14") _, out("r15") _,
+        clobber_abi("C"),
+    );
+}
+
+#[allow(static_mut_refs)]
+pub fn entry_frames(r: &mut Rep, a: &Args) {
+    use crate::arch::{ERR_VECTORS, RESERVED_VECTORS};
+    use crate::c12::{decode_gate, table_bytes};
+    use x86_64::set_general_handler;
+    use x86_64::structures::idt::InterruptDescriptorTable;
+    let mut t = InterruptDescriptorTable::new();
+    set_general_handler!(&mut t, gh);
+    let b = table_bytes(&t);
+    let frames: [[u64; 5]; 5] = [
+        [0xffff_8000_0000_1000, 0x08, 0x2, 0xffff_ff7f_ffff_fff8, 0x10],
+        [0x0000_7fff_ffff_fffe, 0x33, 0x246, 0x0000_7ffd_1234_5670, 0x2b],
+        [0, 0xfff8, 0x0020_0ed7, 0, 0],
+        [0xffff_ffff_ffff_ffff, 0x1b, 0x3202, 0xffff_ffff_ffff_fff0, 0x23],
+        [0x0000_1234_5678_9abc, 0x10, 0x0004_0202, 0x0000_0000_0000_0008, 0x18],
+    ];
+    for v in 0..=255u8 {
+        if v == 8 || v == 18 || RESERVED_VECTORS.contains(&v) {
+            continue; // diverging vectors never execute iretq; reserved vectors have no stub
+        }
+        if v as usize % a.nshards != a.shard {
+            continue;
+        }
+        let g = decode_gate(b[16 * v as usize..16 * v as usize + 16].try_into().unwrap());
+        let has_err = ERR_VECTORS.contains(&v);
+        for (fi, fr) in frames.iter().enumerate() {
+            if !a.thorough() && (v as usize + fi) % 2 != 0 && v > 32 {
+                continue;
+            }
+            let err = has_err.then_some(0x0123_4567_89ab_cdef ^ ((fi as u64) << 60));
+            unsafe { SEEN = Seen::default() };
+            cpu().clear_events();
+            let res = run_stepped(|| unsafe { enter_with_frame(g.offset, fr, err) });
+            cpu().iret_cont = 0;
+            let ev = cpu().evs();
+            r.ev(true);
+            let case = format!("entryframe {} {}", v, fi);
+            let seen = unsafe { SEEN };
+            let iret_ok = ev.len() == 1 && matches!(ev[0], Ev::Iretq(a0, a1, a2, a3, a4) if [a0, a1, a2, a3, a4] == *fr);
+            if res.is_err() || !iret_ok {
+                r.viol("C13|entry(arbitrary frame)|stub-does-not-return-with-exactly-the-interrupted-frame", &case, &format!("{:x?} expected frame {:x?}", ev, fr));
+            }
+            if seen.calls != 1 || seen.index != v as u64 || seen.frame[0] != fr[0] || seen.frame[1] != fr[1] & 0xffff || seen.frame[2] != fr[2] || seen.frame[3] != fr[3] || seen.frame[4] != fr[4] & 0xffff
+                || (seen.has_err == 1) != has_err || (has_err && Some(seen.err) != err)
+            {
+                r.viol("C13|entry(arbitrary frame)|handler-observation-wrong", &case, &format!("calls {} index {} frame {:x?} err {:x?}", seen.calls, seen.index, seen.frame, (seen.has_err, seen.err)));
+            }
+        }
+    }
+}
+
 pub fn run(r: &mut Rep, a: &Args) {
     crate::simcpu::init();
     let addrs = canon_small();
